@@ -1411,6 +1411,8 @@ pub fn c08(tier: &str) -> (Vec<Space>, Focus) {
             if let Some(a) = f.starts_after_interrupt {
                 st.count("runs_with_interrupt_sent", 1);
                 st.count("runs_where_interrupt_preceded_first_poll", f.interrupt_before_first_poll as u64);
+                st.count("runs_where_a_user_future_sent_the_signal_inside_a_poll", f.mid_poll_signal as u64);
+                st.count("runs_where_functions_ready_at_a_mid_poll_signal_started_after_it", (f.excused_after_mid_signal > 0) as u64);
                 let tight = match c.strat {
                     Strat::Finish | Strat::NextN(0) => a == 1,
                     Strat::NextN(m) => a == m as usize && m > 0,
